@@ -70,8 +70,9 @@ class Table:
             else:
                 line = (line + " " + tok) if line else tok
         out.append(line)
-        return "(* %s  [%s] *)\nDefinition src_%s : %s :=\n  %s.\n" % (self.doc, self.origin, self.name, coq_type(self.typ),
-                                                                       "\n  ".join(out))
+        # the file name only: line numbers move with every unrelated edit and would force a rebuild (they are in the evidence)
+        return "(* %s  [%s] *)\nDefinition src_%s : %s :=\n  %s.\n" % (self.doc, self.origin.split(":")[0], self.name,
+                                                                       coq_type(self.typ), "\n  ".join(out))
 
 
 # registry: extractor functions, each returns a list of Table; declared with the names it produces so
@@ -918,8 +919,13 @@ def main():
         for n, msg in failures.items():
             print("FAILED     %-22s %s" % (n, msg))
         return 1 if failures else 0
-    out = os.path.join(common.COQ, "Generated", "SourceTables.v")
-    tables, failures, changed = regenerate(common.REPO, out)
+    before = None
+    st0 = common.scratch_dir() + "/SourceTables.v" if common.scratch_mode() else os.path.join(common.COQ, "Generated", "SourceTables.v")
+    if os.path.exists(st0):
+        before = open(st0, encoding="utf-8").read()
+    st = common.regenerate_source_tables()
+    tables, failures, out = st["tables"], st["failures"], st["path"]
+    changed = before != open(out, encoding="utf-8").read()
     print("%s: %d tables, %d failed, %s" % (out, len(tables), len(failures), "rewritten" if changed else "unchanged"))
     for n, msg in failures.items():
         print("FAILED %s: %s" % (n, msg))
